@@ -7,7 +7,7 @@
 #include <stddef.h>
 #include <stdbool.h>
 #ifndef MAXNB
-#define MAXNB 16
+#define MAXNB 4
 #endif
 #define REACH(tag) __CPROVER_assert(0, "REACH " tag)
 #define NEWM (MAXNB)
@@ -28,6 +28,7 @@ void updateChildCosts(size_t m) __CPROVER_requires(m < NB && updatedG < 10) __CP
 bool rrtstar_rewire(void)
 __CPROVER_requires(NB <= MAXNB && G < NB && !checkedG && removedG == 0 && pushedG == 0 && updatedG == 0)
 __CPROVER_requires(INC0 == INC[G] && COST0 == COSTM[G] && PARENT0 == PARENT[G] && INC0 == INC0 && COST0 == COST0 && COSTM[NEWM] == COSTM[NEWM])
+__CPROVER_requires(PARENT0 != NEWM)       /* the new motion has no children yet */
 __CPROVER_requires(PARENT[NEWM] >= 0 && PARENT[NEWM] < (int)NB && (valid[G] == 0 || valid[G] == 1 || valid[G] == -1))
 __CPROVER_requires(symCost ==> (incCosts[G] == MC[G][NEWM] && MC[G][NEWM] == MC[NEWM][G]))    /* the cache filled by the parent-selection phase */
 __CPROVER_assigns(__CPROVER_object_whole(PARENT), __CPROVER_object_whole(INC), __CPROVER_object_whole(COSTM), checkedG, removedG, pushedG, updatedG)
@@ -38,6 +39,6 @@ __CPROVER_ensures((PARENT[G] == NEWM && PARENT0 != NEWM) ==> COSTM[G] < COST0)
 /* C01.edge the new edge was validated (motion check new -> neighbour passed now, or the validity cache recorded it) */
 __CPROVER_ensures((PARENT[G] == NEWM && PARENT0 != NEWM) ==> ((checkedG && MVG) || valid[G] == 1))
 /* bookkeeping: removed from the old parent's child list, added to the new one, descendants' costs updated -- exactly when re-parented */
-__CPROVER_ensures((PARENT[G] == NEWM && PARENT0 != NEWM) ? (removedG == 1 && pushedG == 1 && updatedG == 1) : (removedG == 0 && pushedG == 0 && updatedG == 0 && (int)G != PARENT[NEWM] ==> (PARENT[G] == PARENT0 && INC[G] == INC0 && COSTM[G] == COST0)))
+__CPROVER_ensures((PARENT[G] == NEWM && PARENT0 != NEWM) ? (removedG == 1 && pushedG == 1 && updatedG == 1) : (removedG == 0 && pushedG == 0 && updatedG == 0 && PARENT[G] == PARENT0 && INC[G] == INC0 && COSTM[G] == COST0))
 /*@BODY rewire@*/
 void h_rewire(void) { bool r = rrtstar_rewire(); if (PARENT[G] == NEWM && PARENT0 != NEWM) REACH("rewired"); else REACH("kept"); if (!symCost && PARENT[G] == NEWM && PARENT0 != NEWM) REACH("rewired, asymmetric cost"); }
